@@ -1,6 +1,7 @@
 (* C27 — Fitted shapes contain their content; traced ends land on the outline.  Statements only.
    Q = exact rationals; fit = GetDimensionsToFit, inner = GetInnerBox / GetInnerBoxForContent(content),
-   boxes at the origin.  Oval and circle (sqrt/trig) are outside the model: monitored by the harness. *)
+   boxes at the origin.  The circle is modelled with the float64 constant math.Sqrt2; the oval (trig) is
+   outside the model: monitored by the harness. *)
 From Coq Require Import ZArith QArith Bool.
 Require Import V.C27.Model V.C27.Proofs.
 Open Scope Q_scope.
@@ -16,16 +17,25 @@ Theorem C27_fit_contains_exact_shapes :
     Contains (w + px) (h + py) b /\ Inside (fst WH) (snd WH) b.
 Proof. exact fit_contains_exact. Qed.
 
-(* All 16 modelled shapes (the above + person, c4-person, cloud): the same containment under the decidable
-   side condition [guard] on the input (true for the exact shapes; see Model.v for the other three). *)
+(* All 17 modelled shapes (the above + person, c4-person, cloud, circle): content + padding minus [loss]
+   (2 for the circle, whose inner top-left is rounded up twice; 0 otherwise) fits, under the decidable side
+   condition [guard] on the input (true for the exact shapes and the circle; see Model.v for the others). *)
 Theorem C27_fit_contains_guarded :
   forall s w h px py, 0 <= w -> 0 <= h -> 0 <= px -> 0 <= py ->
     guard s w h px py = true ->
     let WH := fit s w h px py in
-    Contains (w + px) (h + py) (inner s (fst WH) (snd WH) w h).
+    Contains (w + px - loss s) (h + py - loss s) (inner s (fst WH) (snd WH) w h).
 Proof. exact fit_contains_guarded. Qed.
 
-(* All 16 modelled shapes, all inputs: the inner box lies inside the shape's box (cloud: within 1 px,
+(* In the property's own words: the inner box of the fitted size is at least as large as the CONTENT. *)
+Theorem C27_fit_contains_content :
+  forall s w h px py, 0 <= w -> 0 <= h -> loss s <= px -> loss s <= py ->
+    guard s w h px py = true ->
+    let WH := fit s w h px py in
+    Contains w h (inner s (fst WH) (snd WH) w h).
+Proof. exact fit_contains_content. Qed.
+
+(* All 17 modelled shapes, all inputs: the inner box lies inside the shape's box (cloud: within 1 px,
    because its inner top-left is rounded up). *)
 Theorem C27_inner_inside_box :
   forall s w h px py, 0 <= w -> 0 <= h -> 0 <= px -> 0 <= py ->
@@ -56,6 +66,24 @@ Theorem C27_fit_contains_cloud_refuted :
   contains_b 0 300 245 (let WH := fit Cloud 300 245 40 20 in inner Cloud (fst WH) (snd WH) 300 245) = false.
 Proof. exact cloud_content_aspect_refuted. Qed.
 
+(* circle 98x98 without padding: inner box 97x97 (with padding >= 2 the theorem above applies) *)
+Theorem C27_fit_contains_circle_zero_padding_refuted :
+  contains_b 0 98 98 (let WH := fit Circle 98 98 0 0 in inner Circle (fst WH) (snd WH) 98 98) = false.
+Proof. exact circle_zero_padding_refuted. Qed.
+
+(* Oval, relative to its trigonometric oracle (c, s = cos, sin of the content angle; cr, sr = cos*r, sin*r of
+   the fitted ellipse; hypotheses evaluated by the harness on the values Go's math package returns):
+   the inner box holds content + the padding's projection, less 2px (two math.Ceil) and 1e-5 relative.
+   Full statement (no oracle, no loss) is not provable: atan2/sin/cos/sqrt are outside the model. *)
+Theorem C27_fit_contains_oval_partial :
+  forall c s cr sr w h px py, 0 <= w -> 0 <= h -> 0 <= px -> 0 <= py ->
+    H_unit_b c s = true ->
+    let WH := fit_oval c s w h px py in
+    H_radius_b cr sr (fst WH) (snd WH) = true ->
+    let b := inner_oval cr sr (fst WH) (snd WH) in
+    Contains ((w + px * c) * (1 - rho) - 2) ((h + py * s) * (1 - rho) - 2) b /\ Inside (fst WH) (snd WH) b.
+Proof. exact oval_fit_partial. Qed.
+
 (* the boolean predicates executed by Check.v are the Props above *)
 Theorem C27_contains_b_reflects : forall cw ch b, contains_b 0 cw ch b = true <-> Contains cw ch b.
 Proof. exact Contains_b. Qed.
@@ -69,14 +97,22 @@ Theorem C27_trace_rect_on_border :
 Proof. exact trace_rect_on_border. Qed.
 
 (* non-vacuity of the side conditions *)
+Example C27_oval_hyps_satisfiable :
+  H_unit_b (4#5) (3#5) = true /\
+  H_radius_b (502046 # 10000) (251023 # 10000) (fst (fit_oval (4#5) (3#5) 100 50 0 0)) (snd (fit_oval (4#5) (3#5) 100 50 0 0)) = true.
+Proof. split; vm_compute; reflexivity. Qed.
+
 Example C27_guard_satisfiable :
-  guard Person 60 100 10 40 = true /\ guard C4Person 300 60 10 40 = true /\ guard Cloud 100 50 40 20 = true
+  guard Person 60 100 10 40 = true /\ guard C4Person 300 60 10 40 = true /\ guard Cloud 100 50 40 20 = true /\ loss Circle <= 40
   /\ exact_shape Hexagon = true /\ on_rect_border_b 0 0 0 10 10 (0, 5) = true.
-Proof. repeat split; vm_compute; reflexivity. Qed.
+Proof. repeat split; vm_compute; try reflexivity; discriminate. Qed.
 
 Print Assumptions C27_fit_contains_exact_shapes.
 Print Assumptions C27_fit_contains_guarded.
+Print Assumptions C27_fit_contains_content.
 Print Assumptions C27_inner_inside_box.
+Print Assumptions C27_fit_contains_oval_partial.
+Print Assumptions C27_fit_contains_circle_zero_padding_refuted.
 Print Assumptions C27_person_within_half_px_partial.
 Print Assumptions C27_fit_contains_person_refuted.
 Print Assumptions C27_fit_contains_c4person_refuted.
